@@ -12,6 +12,11 @@ BASE = "cd /repo && /venv/bin/python -m pytest -ra -q -p no:cacheprovider --time
 
 # id -> (category, technique, text, note, design_ref)
 T = {
+ "C13": ("exploration",
+         "bounded exhaustive enumeration of token streams: the filter's complete (previous, token, next) decision domain (all streams <=3 over 134 walker tokens) + all streams of length 4-5 over a reduced alphabet, real filter, oracle = independent predicate written from the standard's optional-tags section; parse-equivalence clause over generated conforming trees in C07's space",
+         "The filter decides from a 3-token window, so enumerating every stream of length <=3 over an alphabet that contains every omissible element (with/without attributes), look-alike names, foreign elements, void elements, text, whitespace, comments and doctype visits every decision it can make; longer streams over a reduced alphabet would expose state added by a change. Each removed token is checked against ref/optional_tags.py.",
+         "ref/optional_tags.py (my transcription of the June-2020 WHATWG 'optional tags' section) is trusted; element names outside the alphabet behave like 'unknownx'; Characters tokens that begin with whitespace are outside the walker contract and not in the alphabet",
+         "6/C13"),
  "C18": ("exploration",
          "bounded exhaustive enumeration of inputs: all attribute sets <=K x all insertion orders x all short token contexts, real filter, set/sort/permutation oracle",
          "Every attribute set of up to 4 (thorough 6) keys drawn from a pool mixing None/string namespaces and equal local names is fed to the real filter in every insertion order, inside every context of neighbouring tokens; the oracle checks multiset equality, sortedness by (namespace or '', local) and permutation invariance. The filter has no state, so this is its whole decision domain up to the bound.",
